@@ -18,7 +18,8 @@ No failure but a different answer than the mirror model: `DIFF`. -/
 namespace Varpulis.Driver.TrendD
 open Varpulis.Trend Varpulis.Driver
 
-abbrev Reports := List (Nat × Nat × Nat) × List (Nat × Nat)
+/-- incremental reports `(event index, query, value)`, flush reports `(window, query, value)` -/
+abbrev Reports := List (Nat × Nat × Nat) × List (Nat × Nat × Nat)
 
 structure Stored where
   reports : Reports := ([], [])
@@ -28,6 +29,8 @@ structure Stored where
 
 structure St where
   qs : List Query := []
+  /-- the windows (separated by `/` = `flush()`), and all events in one list -/
+  wins : List (List Ty) := [[]]
   evs : List Ty := []
   hamShared : Stored := {}
   hamNonShared : Stored := {}
@@ -40,12 +43,12 @@ def parseStep (s : String) : Option Step :=
 
 def parseQuery (s : String) : Option Query := (s.splitOn ",").mapM parseStep
 
-def parseNew (rest : String) : Option (List Query × List Ty) :=
+def parseNew (rest : String) : Option (List Query × List (List Ty)) :=
   match rest.splitOn "|" with
   | [qs, evs] => do
     let qs ← ((words qs).flatMap (·.splitOn ";")).mapM parseQuery
-    let evs ← (words evs).mapM String.toNat?
-    pure (qs, evs)
+    let wins ← (evs.splitOn "/").mapM fun w => (words w).mapM String.toNat?
+    pure (qs, wins)
   | _ => none
 
 def lt3 (a b : Nat × Nat × Nat) : Bool :=
@@ -53,9 +56,9 @@ def lt3 (a b : Nat × Nat × Nat) : Bool :=
 
 def fmt (r : Reports) : String :=
   let inc := r.1.mergeSort lt3
-  let fl := r.2.mergeSort (fun a b => a.1 < b.1 || (a.1 == b.1 && a.2 ≤ b.2))
+  let fl := r.2.mergeSort lt3
   "i=" ++ ",".intercalate (inc.map fun (k, q, v) => s!"{k}:{q}:{v}") ++
-  " f=" ++ ",".intercalate (fl.map fun (q, v) => s!"{q}:{v}")
+  " f=" ++ ",".intercalate (fl.map fun (w, q, v) => s!"{w}:{q}:{v}")
 
 def parseTriples (s : String) : Option (List (Nat × Nat × Nat)) :=
   if s.isEmpty then some [] else
@@ -75,7 +78,7 @@ def parseImpl (s : String) : Option Reports :=
   | [i, f] =>
     if i.startsWith "i=" && f.startsWith "f=" then do
       let a ← parseTriples (i.drop 2).toString
-      let b ← parsePairs (f.drop 2).toString
+      let b ← parseTriples (f.drop 2).toString
       pure (a, b)
     else none
   | _ => none
@@ -83,7 +86,7 @@ def parseImpl (s : String) : Option Reports :=
 /-- the reports about query `q`, renumbered to `as` -/
 def project (r : Reports) (q as : Nat) : Reports :=
   ((r.1.filter (·.2.1 == q)).map (fun (k, _, v) => (k, as, v)),
-   (r.2.filter (·.1 == q)).map (fun (_, v) => (as, v)))
+   (r.2.filter (·.2.1 == q)).map (fun (w, _, v) => (w, as, v)))
 
 def hasStart (q : Query) (evs : List Ty) : Bool :=
   match q.head? with | some s => evs.contains s.ty | none => false
@@ -104,17 +107,27 @@ def sharesType (qs : List Query) (i : Nat) : Bool :=
   let mine := (qs[i]!).types
   (qs.zipIdx).any fun (q, j) => j != i && q.any fun s => mine.contains s.ty
 
-/-- count failures of the reports about query `qid` (pattern `q`): `(what, expected)` -/
-def countFailures (q : Query) (qid : Nat) (evs : List Ty) (r : Reports) (flushed : Bool) : List String :=
+/-- count failures of the reports about query `qid` (pattern `q`), window by window (every window is
+judged on its own: `flush()` ends it): `(events of the window, what)` -/
+def countFailures (q : Query) (qid : Nat) (wins : List (List Ty)) (r : Reports) (flushed : Bool) :
+    List (List Ty × String) :=
   let inc := r.1.filter (·.2.1 == qid)
-  let bad := inc.filter fun (k, _, v) => v != dpCount q (evs.take (k + 1))
-  let total := dpCount q evs
-  let fin : Nat :=
-    if flushed then (((r.2.find? (·.1 == qid)).map (·.2)).getD 0)
-    else (((inc.mergeSort lt3).getLast?).map (·.2.2)).getD 0
-  (bad.map fun (k, _, v) => s!"query {qid} reported {v} after event {k}, trends so far: {dpCount q (evs.take (k + 1))}") ++
-  (if fin != total then
-     [s!"query {qid} {if flushed then "flush() reported" else "last reported"} {fin}, trends in the window: {total}"] else [])
+  (wins.zipIdx.foldl (fun (acc : Nat × List (List Ty × String)) (evs, w) =>
+    let off := acc.1
+    let mine := (inc.filter fun (k, _, _) => off ≤ k && k < off + evs.length).mergeSort lt3
+    let bad := mine.filter fun (k, _, v) => v != dpCount q (evs.take (k - off + 1))
+    let total := dpCount q evs
+    let fin : Nat :=
+      if flushed then (((r.2.find? fun (w', q', _) => w' == w && q' == qid).map (·.2.2)).getD 0)
+      else ((mine.getLast?).map (·.2.2)).getD 0
+    (off + evs.length, acc.2 ++
+      (bad.map fun (k, _, v) => (evs, s!"query {qid} reported {v} after event {k}, trends so far in window {w}: {dpCount q (evs.take (k - off + 1))}")) ++
+      (if fin != total then
+        [(evs, s!"query {qid} {if flushed then "flush() reported" else "last reported"} {fin} for window {w}, trends in that window: {total}")] else [])))
+    (0, [])).2 ++
+  -- reports that belong to no window / no event
+  ((r.2.filter fun (w, q', _) => q' == qid && w ≥ wins.length).map fun (w, _, v) => ([], s!"query {qid}: flush report {v} for a window {w} that does not exist")) ++
+  ((inc.filter fun (k, _, _) => k ≥ (wins.map (·.length)).sum).map fun (k, _, v) => ([], s!"query {qid}: report {v} for an event {k} that does not exist"))
 
 inductive Kind | hamlet | greta | engine
   deriving DecidableEq
@@ -137,7 +150,7 @@ def step (st : St) (line : String) : St × String :=
   | [] => (st, "")
   | "new" :: _ =>
     match parseNew (op.drop 3).toString with
-    | some (qs, evs) => ({ qs, evs }, "")
+    | some (qs, wins) => ({ qs, wins, evs := wins.flatten }, "")
     | none => (st, "BADLINE")
   | [kind, which] =>
     let n := st.qs.length
@@ -148,15 +161,16 @@ def step (st : St) (line : String) : St × String :=
     | some k =>
     -- which queries run, under which ids
     let alone? : Option Nat := if which.startsWith "alone" then (which.drop 5).toString.toNat? else none
-    let okWhich := match alone? with
+    let multi := st.wins.length > 1
+    let okWhich := !(multi && k == .engine) && match alone? with
       | some i => i < n
       | none => (k == .hamlet && (which == "shared" || which == "nonshared")) || (k != .hamlet && which == "all")
     if !okWhich then (st, "BADLINE") else
     let runQs : List Query := match alone? with | some i => [st.qs[i]!] | none => st.qs
     let known : Ty → Bool := fun t => t < 3
     let model : Reports := match k with
-      | .hamlet => Hamlet.run runQs (if which == "nonshared" then 1000 else 2) st.evs
-      | .greta => GretaImpl.run runQs st.evs known
+      | .hamlet => Hamlet.runWindows runQs (if which == "nonshared" then 1000 else 2) st.wins
+      | .greta => GretaImpl.runWindows runQs st.wins known
       | .engine => (EngineImpl.run runQs st.evs, [])
     let modelS := fmt model
     match parseImpl impl with
@@ -167,17 +181,17 @@ def step (st : St) (line : String) : St × String :=
     -- 1. counts
     let cf : List (String × Bool × String) := (runQs.zipIdx).flatMap fun (q, j) =>
       let orig := alone?.getD j
-      (countFailures q j st.evs r flushed).map fun txt =>
+      (countFailures q j st.wins r flushed).map fun (wevs, txt) =>
         match k with
         | .hamlet =>
-          if hasStart q st.evs then ("C25-hamlet-count", true, txt)
+          if hasStart q wevs then ("C25-hamlet-count", true, txt)
           else ("C25-hamlet-sharing", which == "shared" && sharesKleene st.qs orig, txt)
         | .greta =>
-          if dpCount q st.evs > 0 then ("C25-greta-accumulates", true, txt)
+          if dpCount q wevs > 0 then ("C25-greta-accumulates", true, txt)
           else ("C25-greta-shared-edges", alone?.isNone && sharesType st.qs orig, txt)
         | .engine =>
           if alone?.isNone && EngineImpl.silenced st.qs orig then ("C25-engine-sharing", true, txt)
-          else ("C25-engine-count", hasStart q st.evs, txt)
+          else ("C25-engine-count", hasStart q wevs, txt)
     -- 2. alone vs alongside
     let sf : List (String × Bool × String) := match alone? with
       | none => []
